@@ -838,64 +838,85 @@ func callString(fn, in string) (pnc string, accepted bool) {
 // conditions only: the parentheses balance, the only words are the three
 // operators, and the largest number written in the string is still in what
 // the value prints as (merging drops inner bounds, never the outermost).
-func locationAcceptedWrongly(in, out string) string {
-	depth := 0
-	for _, c := range in {
-		switch c {
-		case '(':
-			depth++
-		case ')':
-			depth--
-			if depth < 0 {
-				return "unbalanced parentheses"
+// refLocation is a small reference recogniser of location strings: the
+// syntax only, and generously (signs, a partial marker on either side, any
+// two numbers around ^): what it refuses no reading of the grammar accepts.
+func refLocation(in string) bool {
+	i := 0
+	integer := func() bool {
+		j := i
+		if j < len(in) && (in[j] == '+' || in[j] == '-') {
+			j++
+		}
+		k := j
+		for k < len(in) && in[k] >= '0' && in[k] <= '9' {
+			k++
+		}
+		if k == j {
+			return false
+		}
+		i = k
+		return true
+	}
+	var loc func(depth int) bool
+	loc = func(depth int) bool {
+		if depth > 100000 {
+			return true
+		}
+		for _, op := range []string{"complement(", "join(", "order("} {
+			if strings.HasPrefix(in[i:], op) {
+				i += len(op)
+				for {
+					if !loc(depth + 1) {
+						return false
+					}
+					if op != "complement(" && i < len(in) && in[i] == ',' {
+						i++
+						for i < len(in) && (in[i] == ' ' || in[i] == '\t' || in[i] == '\n' || in[i] == '\r' || in[i] == '\v' || in[i] == '\f') {
+							i++
+						}
+						continue
+					}
+					break
+				}
+				if i < len(in) && in[i] == ')' {
+					i++
+					return true
+				}
+				return false
 			}
 		}
-	}
-	if depth != 0 {
-		return "unbalanced parentheses"
-	}
-	word, num := "", ""
-	maxIn := -1
-	flush := func() string {
-		if word != "" && word != "join" && word != "order" && word != "complement" {
-			return "the word " + strconv.Quote(word) + " is no location operator"
+		if i < len(in) && (in[i] == '<' || in[i] == '>') {
+			i++
 		}
-		if num != "" && len(num) < 18 {
-			if v, err := strconv.Atoi(num); err == nil && v > maxIn {
-				maxIn = v
-			}
+		if !integer() {
+			return false
 		}
-		word, num = "", ""
-		return ""
-	}
-	for i := 0; i < len(in); i++ {
-		c := in[i]
 		switch {
-		case c >= 'a' && c <= 'z' || c >= 'A' && c <= 'Z' || c == '_':
-			if num != "" {
-				if why := flush(); why != "" {
-					return why
-				}
-			}
-			word += string(c)
-		case c >= '0' && c <= '9':
-			if word != "" {
-				if why := flush(); why != "" {
-					return why
-				}
-			}
-			num += string(c)
+		case strings.HasPrefix(in[i:], ".."):
+			i += 2
+		case i < len(in) && (in[i] == '.' || in[i] == '^'):
+			i++
 		default:
-			if why := flush(); why != "" {
-				return why
-			}
+			return true
 		}
+		if i < len(in) && (in[i] == '<' || in[i] == '>') {
+			i++
+		}
+		if !integer() {
+			return false
+		}
+		if i < len(in) && in[i] == '>' {
+			i++
+		}
+		return true
 	}
-	if why := flush(); why != "" {
-		return why
-	}
-	if maxIn >= 0 && !strings.Contains(out, strconv.Itoa(maxIn)) {
-		return "the largest number in it, " + strconv.Itoa(maxIn) + ", is not in the value it was read as (" + out + ")"
+	return loc(0) && i == len(in)
+}
+
+func locationAcceptedWrongly(in, out string) string {
+	if !refLocation(in) {
+		return "no reading of the location grammar derives it (it was read as " + out + ")"
 	}
 	return ""
 }
@@ -932,6 +953,75 @@ func mutateString(r *core.RNG, s string) string {
 		}
 	}
 	return string(b)
+}
+
+// smallLocation is a well-formed location over very few coordinates, so that
+// parts touch, overlap, coincide and run backwards far more often than in
+// the locations of real records.
+func smallLocation(r *core.RNG, depth int) string {
+	num := func() string { return strconv.Itoa(r.Range(0, 12)) }
+	if depth < 3 && r.Chance(2, 5) {
+		switch r.Intn(3) {
+		case 0:
+			return "complement(" + smallLocation(r, depth+1) + ")"
+		default:
+			op := []string{"join(", "order("}[r.Intn(2)]
+			n := r.Range(1, 4)
+			parts := make([]string, n)
+			for i := range parts {
+				parts[i] = smallLocation(r, depth+1)
+			}
+			// a part that starts where the one before it ends
+			if n > 1 && r.Chance(1, 2) {
+				i := 1 + r.Intn(n-1)
+				if j := strings.LastIndexAny(parts[i-1], "0123456789"); j >= 0 {
+					k := j
+					for k > 0 && parts[i-1][k-1] >= '0' && parts[i-1][k-1] <= '9' {
+						k--
+					}
+					v, _ := strconv.Atoi(parts[i-1][k : j+1])
+					parts[i] = strconv.Itoa(v+1) + ".." + num()
+				}
+			}
+			return op + strings.Join(parts, ",") + ")"
+		}
+	}
+	switch r.Intn(6) {
+	case 0:
+		return num()
+	case 1:
+		return num() + "^" + num()
+	case 2:
+		return num() + "." + num()
+	case 3:
+		return "<" + num() + ".." + num()
+	case 4:
+		return num() + "..>" + num()
+	}
+	return num() + ".." + num()
+}
+
+// fragmentNoise strings are made of pieces of valid locations put together
+// in no order: what one alternative of a parser consumed before it gave up
+// must not be lost to the next.
+func fragmentNoise(r *core.RNG) string {
+	frags := []string{"1^3", "3^4", "1^", "1..", "..5", "1..5", "2..>9", "<1", "<1..", ">5", "complement(", "join(", "order(", ")", ")", ",", ", ",
+		"7", "12", "1.5", "1.", "^", "+5", "-5", " ", "9^11", "4^5", "10..1"}
+	n := r.Range(2, 6)
+	var b strings.Builder
+	open := 0
+	for k := 0; k < n; k++ {
+		f := frags[r.Intn(len(frags))]
+		b.WriteString(f)
+		if strings.HasSuffix(f, "(") {
+			open++
+		}
+	}
+	// mostly with the parentheses closed, so that the string gets far
+	for ; open > 0 && r.Chance(3, 4); open-- {
+		b.WriteString(")")
+	}
+	return b.String()
 }
 
 // grammarNoise is a short string over the characters that mean something to
@@ -1487,7 +1577,14 @@ func (C07) RunSeed(tier string, seed uint64, idx int) *core.Result {
 			seeds := stringSeeds[fn]
 			in := mutateString(r, seeds[r.Intn(len(seeds))])
 			if fn != "AsDate" && fn != "AsMolecule" && fn != "AsTopology" && fn != "FeatureTable" {
-				switch r.Intn(6) {
+				switch r.Intn(8) {
+				case 6:
+					in = fragmentNoise(r)
+				case 7:
+					in = smallLocation(r, 0)
+					if fn == "AsLocator" && r.Chance(1, 2) {
+						in = "@" + in
+					}
 				case 0:
 					in = grammarNoise(r)
 				case 1: // a valid start with noise behind a separator
@@ -1546,7 +1643,9 @@ func (C07) Replay(raw json.RawMessage) ([]core.Violation, string, error) {
 	x := &c07Run{res: res}
 	if sc.Kind == "string" {
 		core.Current, core.CurrentSig = &sc, "string:"+sc.Func
-		if pnc, ok1 := callString(sc.Func, sc.Input); pnc != "" {
+		if pnc, ok1 := callString(sc.Func, sc.Input); strings.HasPrefix(pnc, "ACCEPTED-MALFORMED: ") {
+			x.violate(&sc, "malformed-accepted", sc.Func, fmt.Sprintf("%s(%q) returned a value and no error although %s", sc.Func, sc.Input, strings.TrimPrefix(pnc, "ACCEPTED-MALFORMED: ")))
+		} else if pnc != "" {
 			x.violate(&sc, "panic", panicSite(pnc), fmt.Sprintf("%s(%q) panicked: %s", sc.Func, sc.Input, firstLine(pnc)))
 		} else if pnc2, ok2 := callString(sc.Func, sc.Input); pnc2 == "" && ok1 != ok2 {
 			x.violate(&sc, "rescan-variance", "string:"+sc.Func, fmt.Sprintf("%s(%q) accepted=%v the first time and accepted=%v the second time in the same process", sc.Func, sc.Input, ok1, ok2))
